@@ -194,6 +194,26 @@ pub fn probe_encoder_result(res: &EncoderResult, r: usize, b: usize, seed: u64) 
             return Err(format!("recovery_iter item {j} has {} bytes, expected {b}", s.len()));
         }
     }
+    // every other way of driving the iterator must agree with repeated next()
+    let mut p = Prng::new(seed ^ 0x17e2);
+    let n = p.below(r as u64 + 2) as usize;
+    if res.recovery_iter().nth(n).map(<[u8]>::to_vec) != all.get(n).cloned() {
+        return Err(format!("recovery_iter().nth({n}) disagrees with the {n}-th item of repeated next()"));
+    }
+    if res.recovery_iter().skip(n).map(<[u8]>::to_vec).collect::<Vec<_>>() != all[n.min(r)..] {
+        return Err(format!("recovery_iter().skip({n}) disagrees with repeated next()"));
+    }
+    let step = 1 + p.below(3) as usize;
+    if res.recovery_iter().step_by(step).map(<[u8]>::to_vec).collect::<Vec<_>>() != all.iter().step_by(step).cloned().collect::<Vec<_>>() {
+        return Err(format!("recovery_iter().step_by({step}) disagrees with repeated next()"));
+    }
+    if res.recovery_iter().count() != r || res.recovery_iter().last().map(<[u8]>::to_vec) != all.last().cloned() {
+        return Err("recovery_iter().count() / last() disagree with repeated next()".to_string());
+    }
+    let (lo, hi) = res.recovery_iter().size_hint();
+    if lo > r || hi.is_some_and(|h| h < r) {
+        return Err(format!("recovery_iter().size_hint() = ({lo}, {hi:?}) excludes the real length {r}"));
+    }
     for i in probe_indexes_for(r, b.div_ceil(64), seed) {
         match res.recovery(i) {
             Some(s) if i < r => {
@@ -237,6 +257,29 @@ pub fn probe_decoder_result(res: &DecoderResult, k: usize, b: usize, given: &[bo
     for (i, s) in &seq {
         if s.len() != b {
             return Err(format!("restored original {i} has {} bytes, expected {b}", s.len()));
+        }
+    }
+    {
+        let mut p = Prng::new(seed ^ 0x17e2);
+        let len = seq.len();
+        let n = p.below(len as u64 + 2) as usize;
+        let own = |x: (usize, &[u8])| (x.0, x.1.to_vec());
+        if res.restored_original_iter().nth(n).map(own) != seq.get(n).cloned() {
+            return Err(format!("restored_original_iter().nth({n}) disagrees with the {n}-th item of repeated next()"));
+        }
+        if res.restored_original_iter().skip(n).map(own).collect::<Vec<_>>() != seq[n.min(len)..] {
+            return Err(format!("restored_original_iter().skip({n}) disagrees with repeated next()"));
+        }
+        let step = 1 + p.below(3) as usize;
+        if res.restored_original_iter().step_by(step).map(own).collect::<Vec<_>>() != seq.iter().step_by(step).cloned().collect::<Vec<_>>() {
+            return Err(format!("restored_original_iter().step_by({step}) disagrees with repeated next()"));
+        }
+        if res.restored_original_iter().count() != len || res.restored_original_iter().last().map(own) != seq.last().cloned() {
+            return Err("restored_original_iter().count() / last() disagree with repeated next()".to_string());
+        }
+        let (lo, hi) = res.restored_original_iter().size_hint();
+        if lo > len || hi.is_some_and(|h| h < len) {
+            return Err(format!("restored_original_iter().size_hint() = ({lo}, {hi:?}) excludes the real length {len}"));
         }
     }
     let map: BTreeMap<usize, Vec<u8>> = seq.into_iter().collect();
